@@ -97,6 +97,15 @@ func (e *Engine) errCtor(st *State, fn *ssa.Function, args []*Val, instr ssa.Ins
 		e.errSites[key] = name
 		e.addDecl(fmt.Sprintf("(declare-const %s Int)", name))
 		e.addDecl(fmt.Sprintf("(assert (> %s 0))", name))
+		// errors built here are not sentinels of other packages (io.EOF ...)
+		e.declOnce("fun:isErrSite", "(declare-fun isErrSite (Int) Bool)")
+		e.addDecl(fmt.Sprintf("(assert (isErrSite %s))", name))
+		switch fn.String() {
+		case "errors.New", "github.com/pkg/errors.New", "github.com/pkg/errors.Errorf":
+			// no Unwrap, no Is method: such an error Is only itself
+			e.declOnce("fun:errIs", "(declare-fun errIs (Int Int) Bool)")
+			e.addDecl(fmt.Sprintf("(assert (forall ((b Int)) (! (=> (errIs %s b) (= b %s)) :pattern ((errIs %s b)))))", name, name, name))
+		}
 	}
 	rt := fn.Signature.Results().At(0).Type()
 	idx, _ := errCtorKind(fn.String())
